@@ -533,7 +533,7 @@ func (p *Pool) Get() any {
 			k := bufKey(b)
 			raceAcquire(k)
 			if st, _ := poolState.get(uintptr(unsafe.Pointer(k))); st != nil {
-				if poolMode == PoolEager {
+				if poolMode == PoolEager && Active() {
 					full := b[:cap(b)]
 					for i, c := range full {
 						if c != poison {
